@@ -53,6 +53,10 @@ func init() {
 		Shrink:   shrinkFuzz,
 		Teardown: teardownFuzz,
 		Parallel: fuzzWorkers(),
+		// Exec waits for child processes with watchdogs of their own (first attempt T, up to two
+		// confirming attempts at 2T, each with a 45 s + 15 s backstop; T = 60 s in the thorough tier):
+		// the framework's per-case watchdog must not fire before those have spoken
+		CaseTimeoutSec: 900,
 	})
 	subcommands["fuzzchild"] = fuzzChild
 }
@@ -83,7 +87,9 @@ func fuzzChild(args []string) {
 			time.Sleep(200 * time.Millisecond)
 			runtime.ReadMemStats(&ms)
 			if ms.HeapAlloc > 4<<30 {
-				fmt.Fprintln(os.Stderr, "fatal: heap above 4 GiB")
+				buf := make([]byte, 1<<20)
+				n := runtime.Stack(buf, true)
+				fmt.Fprintf(os.Stderr, "fatal: heap above 4 GiB (out of memory)\n\n%s\n", buf[:n])
 				os.Exit(3)
 			}
 		}
@@ -121,10 +127,7 @@ func fuzzChild(args []string) {
 		wd := time.AfterFunc(childTimeout, func() {
 			buf := make([]byte, 4<<20)
 			n := runtime.Stack(buf, true)
-			site := fatalSite("\n\n"+string(buf[:n]), false)
-			if site == "" {
-				site = f[0]
-			}
+			site := targetSite(string(buf[:n]), f[0])
 			fmt.Fprintf(out, "R hang\t%s\n", site)
 			out.Flush()
 			os.Exit(4)
@@ -328,15 +331,18 @@ func fuzzNote(s string) {
 var (
 	fuzzPool    chan *fuzzProc
 	fuzzMu      sync.Mutex
-	fuzzTimeout = 30 * time.Second
+	fuzzTimeout = 15 * time.Second // quick; confirmation attempts use twice this
 	fuzzSlow    int
 	fuzzMaxEl   time.Duration
 	fuzzMaxIn   string
 )
 
-func spawnFuzzChild() *fuzzProc {
+func spawnFuzzChild() *fuzzProc { return spawnFuzzChildT(fuzzTimeout) }
+
+// spawnFuzzChildT starts a child whose own watchdog fires after `timeout` per input.
+func spawnFuzzChildT(timeout time.Duration) *fuzzProc {
 	dir, _ := os.MkdirTemp("", "zv-fuzzchild")
-	cmd := exec.Command(os.Args[0], "fuzzchild", strconv.Itoa(int(fuzzTimeout/time.Second)), dir)
+	cmd := exec.Command(os.Args[0], "fuzzchild", strconv.Itoa(int(timeout/time.Second)), dir)
 	in, _ := cmd.StdinPipe()
 	outp, _ := cmd.StdoutPipe()
 	eb := &bytes.Buffer{}
@@ -362,7 +368,7 @@ func setupFuzz() {
 	}
 	for i, a := range os.Args {
 		if (a == "-tier" || a == "--tier") && i+1 < len(os.Args) && os.Args[i+1] == "thorough" && os.Getenv("VERIF_FUZZ_TIMEOUT") == "" {
-			fuzzTimeout = 120 * time.Second
+			fuzzTimeout = 60 * time.Second
 		}
 	}
 	n := fuzzWorkers()
@@ -382,7 +388,7 @@ func teardownFuzz() {
 				note(fmt.Sprintf("%d further findings not listed", fuzzNotes-40))
 			}
 			if fuzzMaxIn != "" {
-				note(fmt.Sprintf("slowest answered input: %.1f s (watchdog %s): %s", fuzzMaxEl.Seconds(), fuzzTimeout, fuzzMaxIn))
+				note(fmt.Sprintf("slowest answered input: %.1f s (watchdog %s, %s on confirmation): %s", fuzzMaxEl.Seconds(), fuzzTimeout, 2*fuzzTimeout, fuzzMaxIn))
 			}
 			if fuzzSlow > 0 {
 				note(fmt.Sprintf("%d inputs took more than 5 s", fuzzSlow))
@@ -435,51 +441,163 @@ func shrinkFuzz(in string) []string {
 	return out
 }
 
-// fatalSite: for a goroutine dump of a hung or dying child: the third-party (non standard library)
-// package that owns most frames of the first goroutine that is inside such code - the recursion of
-// a stack exhaustion, the parser a hung input spins in.  Function-level keys and the innermost
-// frame are not stable here (the runtime elides the middle of a deep stack; a spinning parser is
-// caught in a different helper every time).
-func fatalSite(stderr string, innermost bool) string {
-	blocks := strings.Split(stderr, "\n\ngoroutine ")
-	fallback := ""
-	for _, blk := range blocks {
-		counts := map[string]int{}
-		for _, l := range strings.Split(blk, "\n") {
-			if l == "" || strings.HasPrefix(l, "\t") || strings.HasPrefix(l, " ") || strings.HasPrefix(l, "runtime.") || strings.HasPrefix(l, "runtime/") ||
-				strings.HasPrefix(l, "internal/") || strings.HasPrefix(l, "main.") || strings.Contains(l, "verifharness") || !strings.Contains(l, "(") || !strings.Contains(l, "/") {
+// moduleOf maps a package path to the module that owns it: host/owner/repo for the usual forges
+// and golang.org/x, the first two elements otherwise ("" for the standard library).
+func moduleOf(pkg string) string {
+	el := strings.Split(pkg, "/")
+	if !strings.Contains(el[0], ".") {
+		return ""
+	}
+	n := 2
+	switch el[0] {
+	case "github.com", "gitlab.com", "bitbucket.org", "golang.org", "google.golang.org":
+		n = 3
+	}
+	if len(el) < n {
+		n = len(el)
+	}
+	return strings.Join(el[:n], "/")
+}
+
+const zenoModule = "github.com/internetarchive/Zeno"
+
+// targetSite names, from a goroutine dump of a hung or dying child, the code the target was in:
+// the goroutine that runs the target is the one with main.runTarget on its stack; its frames are
+// walked from the innermost outwards and the first one that belongs to a third-party module (not
+// the standard library, not Zeno, not this harness) gives the site = that MODULE
+// (github.com/pdfcpu/pdfcpu, golang.org/x/net, ...).  A spin in library code called from such a
+// module (strings, bytes, compress/flate, the allocator) is thereby attributed to the caller's
+// module.  With no third-party frame the site is zeno:<package of the innermost Zeno frame>.
+// The package or function of the innermost frame is NOT used: it differs from dump to dump.
+func targetSite(dump, target string) string {
+	blocks := strings.Split(strings.ReplaceAll(dump, "\r", ""), "\n\n")
+	pick := -1
+	for i, b := range blocks {
+		if strings.Contains(b, "main.runTarget(") {
+			pick = i
+			break
+		}
+	}
+	scan := func(b string) (third, zeno string) {
+		for _, l := range strings.Split(b, "\n") {
+			if l == "" || l[0] == '\t' || l[0] == ' ' || strings.HasPrefix(l, "goroutine ") || strings.HasPrefix(l, "created by ") || !strings.Contains(l, "(") {
 				continue
 			}
 			fn := l[:strings.LastIndex(l, "(")]
-			// package path = up to the first dot after the last slash
 			sl := strings.LastIndex(fn, "/")
 			d := strings.Index(fn[sl+1:], ".")
 			if d <= 0 {
 				continue
 			}
 			pkg := fn[:sl+1+d]
-			if first, _, _ := strings.Cut(pkg, "/"); !strings.Contains(first, ".") { // standard library
-				if fallback == "" {
-					fallback = pkg
-				}
+			if strings.Contains(pkg, "verifharness") || pkg == "main" {
 				continue
 			}
-			if innermost {
-				return pkg
+			m := moduleOf(pkg)
+			switch {
+			case m == "":
+			case m == zenoModule:
+				if zeno == "" {
+					zeno = "zeno:" + strings.TrimPrefix(strings.TrimPrefix(pkg, zenoModule), "/")
+				}
+			default:
+				return m, zeno
 			}
-			counts[pkg]++
 		}
-		best, bn := "", 0
-		for k, n := range counts {
-			if n > bn || (n == bn && k < best) {
-				best, bn = k, n
-			}
-		}
-		if best != "" {
-			return best
+		return "", zeno
+	}
+	if pick >= 0 {
+		if third, zeno := scan(blocks[pick]); third != "" {
+			return third
+		} else if zeno != "" {
+			return zeno
 		}
 	}
-	return fallback
+	// the target's goroutine was not identifiable (truncated dump): any goroutine inside third-party code
+	for _, b := range blocks {
+		if third, _ := scan(b); third != "" {
+			return third
+		}
+	}
+	return "zeno:" + target
+}
+
+// fuzzRes is the outcome of one attempt of one input on one child.
+type fuzzRes struct {
+	class string // "ok" (the child answered: ok / err / panic), "hang", "died"
+	line  string // class ok: the answer
+	site  string // hang / died: module (targetSite)
+	kind  string // died: stack-overflow | out-of-memory | fatal-error | unknown
+	first string // died: first line the child wrote to stderr
+	el    time.Duration
+}
+
+// fuzzAttempt runs one input on child p whose own watchdog fires after `timeout`.  alive tells
+// whether p can serve further inputs; a child that is not alive has been reaped.
+func fuzzAttempt(p *fuzzProc, target string, data []byte, timeout time.Duration) (r fuzzRes, alive bool) {
+	type answer struct {
+		line string
+		err  error
+	}
+	t0 := time.Now()
+	ch := make(chan answer, 1)
+	go func() {
+		fmt.Fprintf(p.in, "%s %x\n", target, data)
+		l, err := p.out.ReadString('\n')
+		ch <- answer{l, err}
+	}()
+	var a answer
+	select {
+	case a = <-ch:
+	case <-time.After(timeout + 45*time.Second): // backstop; the child's own watchdog fires at `timeout`
+		// ask the runtime for a goroutine dump (SIGQUIT), then make sure the child is gone
+		p.cmd.Process.Signal(syscall.SIGQUIT)
+		done := make(chan struct{})
+		go func() { p.cmd.Wait(); close(done) }()
+		select {
+		case <-done:
+		case <-time.After(15 * time.Second):
+			p.cmd.Process.Kill()
+			<-done
+		}
+		p.in.Close()
+		os.RemoveAll(p.dir)
+		return fuzzRes{class: "hang", site: targetSite(p.stderr.String(), target), el: time.Since(t0)}, false
+	}
+	r.el = time.Since(t0)
+	if a.err != nil || !strings.HasPrefix(a.line, "R ") {
+		time.Sleep(50 * time.Millisecond)
+		p.kill()
+		se := p.stderr.String()
+		r.class, r.kind = "died", "unknown"
+		r.first = strings.SplitN(strings.TrimSpace(se), "\n", 2)[0]
+		if len(r.first) > 160 {
+			r.first = r.first[:160]
+		}
+		switch {
+		case strings.Contains(se, "stack exceeds"), strings.Contains(se, "stack overflow"):
+			r.kind = "stack-overflow"
+		case strings.Contains(se, "out of memory"), strings.Contains(se, "heap above"), strings.Contains(se, "cannot allocate"):
+			r.kind = "out-of-memory"
+		case strings.Contains(se, "fatal error"):
+			r.kind = "fatal-error"
+		}
+		if strings.Contains(se, "goroutine ") {
+			r.site = targetSite(se, target)
+		}
+		return r, false
+	}
+	f := strings.Split(strings.TrimSpace(a.line[2:]), "\t")
+	if f[0] == "hang" { // the child's own watchdog: it has left
+		p.kill()
+		r.class = "hang"
+		if len(f) > 1 {
+			r.site = f[1]
+		}
+		return r, false
+	}
+	r.class, r.line = "ok", strings.TrimSpace(a.line[2:])
+	return r, true
 }
 
 func execFuzz(in string) Result {
@@ -508,132 +626,126 @@ func execFuzz(in string) Result {
 	if fuzzBreaker(target, false) {
 		return Result{Term: fmt.Sprintf("FZ %d%%N 0%%N", ti), Tags: append(tags, "skipped-after-hangs")}
 	}
-	p := <-fuzzPool
-	t0 := time.Now()
-	type answer struct {
-		line string
-		err  error
-	}
-	outcome := 0
-	nontrivial := false
-	var a answer
-	ask := func() {
-		outcome = 0
-		ch := make(chan answer, 1)
-		q := p
-		go func() {
-			fmt.Fprintf(q.in, "%s %x\n", target, data)
-			l, err := q.out.ReadString('\n')
-			ch <- answer{l, err}
-		}()
-		select {
-		case a = <-ch:
-		case <-time.After(fuzzTimeout + 30*time.Second): // backstop; the child's own watchdog fires at fuzzTimeout
-			outcome = 2
-		}
-	}
-	ask()
-	if outcome == 0 && (a.err != nil || !strings.HasPrefix(a.line, "R ")) {
-		// The child died.  It has served many inputs before this one: confirm on a fresh child that
-		// THIS input kills it (a crasher is deterministic; a death that does not repeat is noted).
-		first := p.stderr.String()
-		if i := strings.Index(first, "\n"); i > 0 {
-			first = first[:i]
-		}
-		p.kill()
-		p = spawnFuzzChild()
-		ask()
-		if outcome == 0 && a.err == nil && strings.HasPrefix(a.line, "R ") {
-			fuzzMu.Lock()
-			note(fmt.Sprintf("a child died (%s) while running %s but a fresh child processed the same input: not attributed to the input", first, in))
-			fuzzMu.Unlock()
-		}
-	}
-	el := time.Since(t0)
-	fuzzMu.Lock()
-	if el > 5*time.Second {
-		fuzzSlow++
-	}
-	fuzzMu.Unlock()
 	describe := func() string {
 		if len(data) <= 4096 {
 			return fmt.Sprintf("t=%s hex=%x", target, data)
 		}
 		return in + fmt.Sprintf(" (%d bytes)", len(data))
 	}
-	switch {
-	case outcome == 2:
-		// ask the runtime for a goroutine dump (SIGQUIT), then make sure the child is gone
-		p.cmd.Process.Signal(syscall.SIGQUIT)
-		done := make(chan struct{})
-		go func() { p.cmd.Wait(); close(done) }()
-		select {
-		case <-done:
-		case <-time.After(5 * time.Second):
-			p.cmd.Process.Kill()
-			<-done
-		}
-		p.in.Close()
-		os.RemoveAll(p.dir)
-		site := target
-		if fs := fatalSite(p.stderr.String(), false); fs != "" {
-			site = fs
-		}
+	p := <-fuzzPool
+	first, alive := fuzzAttempt(p, target, data, fuzzTimeout)
+	if !alive {
 		p = spawnFuzzChild()
-		tags = append(tags, "hang="+site)
+	}
+	fuzzPool <- p
+	fuzzMu.Lock()
+	if first.el > 5*time.Second {
+		fuzzSlow++
+	}
+	if first.class == "ok" && first.el > fuzzMaxEl {
+		fuzzMaxEl, fuzzMaxIn = first.el, in
+		if len(fuzzMaxIn) > 200 {
+			fuzzMaxIn = fuzzMaxIn[:200] + "..."
+		}
+	}
+	fuzzMu.Unlock()
+
+	// An abnormal end (no answer, dead child) is only attributed to the input when it is REPRODUCED:
+	// the input is run again on fresh children (their watchdog doubled, so that a slow but terminating
+	// decode on a loaded machine is not called a hang) until one outcome class has been seen twice,
+	// at most three attempts in all.  Whether a runaway decode ends as a hang or as a dead child
+	// depends on memory pressure and timing; what is reported is the class seen twice.
+	res := first
+	if first.class != "ok" {
+		all := []fuzzRes{first}
+		count := map[string]int{first.class: 1}
+		decided := ""
+		for len(all) < 3 && decided == "" {
+			q := spawnFuzzChildT(2 * fuzzTimeout)
+			r, alive := fuzzAttempt(q, target, data, 2*fuzzTimeout)
+			if alive {
+				q.kill()
+			}
+			all = append(all, r)
+			count[r.class]++
+			if count[r.class] >= 2 {
+				decided = r.class
+			}
+		}
+		var seen []string
+		for _, r := range all {
+			d := r.class
+			if r.class == "died" {
+				d += "(" + r.kind + ")"
+			}
+			seen = append(seen, d)
+		}
+		if decided == "" {
+			fuzzMu.Lock()
+			note(fmt.Sprintf("abnormal end not reproduced (attempts: %s): not attributed to the input: %s", strings.Join(seen, ", "), describe()))
+			fuzzMu.Unlock()
+			for _, r := range all {
+				if r.class == "ok" {
+					res = r
+				}
+			}
+			if res.class != "ok" {
+				res = fuzzRes{class: "ok", line: "err"}
+			}
+			tags = append(tags, "unreproduced")
+		} else {
+			// representative of the decided class: prefer an attempt that could name a third-party site
+			for _, r := range all {
+				if r.class == decided && (res.class != decided || (strings.HasPrefix(res.site, "zeno:") || res.site == "") && r.site != "" && !strings.HasPrefix(r.site, "zeno:")) {
+					res = r
+				}
+			}
+			if decided != first.class || len(all) > 2 {
+				fuzzMu.Lock()
+				note(fmt.Sprintf("attempts differed (%s), reported as %s: %s", strings.Join(seen, ", "), decided, in))
+				fuzzMu.Unlock()
+			}
+			if res.site == "" { // no dump from the representative: take the site another attempt saw
+				for _, r := range all {
+					if r.site != "" {
+						res.site = r.site
+						break
+					}
+				}
+			}
+		}
+	}
+
+	outcome := 0
+	nontrivial := false
+	switch res.class {
+	case "hang":
+		outcome = 2
+		if res.site == "" {
+			res.site = "zeno:" + target
+		}
+		tags = append(tags, "hang="+res.site)
 		fuzzMu.Lock()
-		fuzzNote(fmt.Sprintf("HANG: no answer within %s: %s", fuzzTimeout, describe()))
+		fuzzNote(fmt.Sprintf("HANG in %s: no answer within %s and, on a fresh child, within %s: %s", res.site, fuzzTimeout, 2*fuzzTimeout, describe()))
 		fuzzMu.Unlock()
-	case a.err != nil || !strings.HasPrefix(a.line, "R "):
+		fuzzBreaker(target, true)
+	case "died":
 		outcome = 3
-		time.Sleep(50 * time.Millisecond)
-		p.kill()
-		se := p.stderr.String()
-		if i := strings.Index(se, "goroutine "); i > 0 {
-			se = se[:i] + "\n\n" + se[i:]
+		if res.site == "" {
+			res.site = "zeno:" + target
 		}
-		first := strings.SplitN(strings.TrimSpace(se), "\n", 2)[0]
-		if len(first) > 160 {
-			first = first[:160]
-		}
-		p = spawnFuzzChild()
-		kind := "unknown"
-		switch {
-		case strings.Contains(se, "stack exceeds"), strings.Contains(se, "stack overflow"):
-			kind = "stack-overflow"
-		case strings.Contains(se, "out of memory"), strings.Contains(se, "heap above"), strings.Contains(se, "cannot allocate"):
-			kind = "out-of-memory"
-		case strings.Contains(se, "fatal error"):
-			kind = "fatal-error"
-		}
-		site := target
-		if fs := fatalSite(se, false); fs != "" {
-			site = fs
-		}
-		tags = append(tags, "died="+kind+"@"+site)
+		tags = append(tags, "died="+res.site, "kind:"+res.kind)
 		fuzzMu.Lock()
-		fuzzNote(fmt.Sprintf("CHILD DIED (%s: %s): %s", kind, first, describe()))
+		fuzzNote(fmt.Sprintf("CHILD DIED in %s (%s: %s), reproduced on a fresh child: %s", res.site, res.kind, res.first, describe()))
 		fuzzMu.Unlock()
 	default:
-		f := strings.Split(strings.TrimSpace(a.line[2:]), "\t")
+		f := strings.Split(res.line, "\t")
 		switch f[0] {
 		case "ok":
 			nontrivial = true
 			tags = append(tags, "ret:ok")
 		case "err":
 			tags = append(tags, "ret:err")
-		case "hang":
-			outcome = 2
-			site := target
-			if len(f) > 1 && f[1] != "" {
-				site = f[1]
-			}
-			p.kill()
-			p = spawnFuzzChild()
-			tags = append(tags, "hang="+site)
-			fuzzMu.Lock()
-			fuzzNote(fmt.Sprintf("HANG in %s: no answer within %s: %s", site, fuzzTimeout, describe()))
-			fuzzMu.Unlock()
 		case "panic":
 			outcome = 1
 			kind, site, msg := "?", "?", ""
@@ -645,20 +757,6 @@ func execFuzz(in string) Result {
 			fuzzNote(fmt.Sprintf("PANIC %s at %s (%s): %s", kind, site, msg, describe()))
 			fuzzMu.Unlock()
 		}
-	}
-	fuzzPool <- p
-	if outcome == 2 {
-		fuzzBreaker(target, true)
-	}
-	if outcome == 0 {
-		fuzzMu.Lock()
-		if el > fuzzMaxEl {
-			fuzzMaxEl, fuzzMaxIn = el, in
-			if len(fuzzMaxIn) > 200 {
-				fuzzMaxIn = fuzzMaxIn[:200] + "..."
-			}
-		}
-		fuzzMu.Unlock()
 	}
 	return Result{Term: fmt.Sprintf("FZ %d%%N %d%%N", ti, outcome), Tags: tags, Nontrivial: nontrivial}
 }
